@@ -71,6 +71,13 @@ impl vstd::std_specs::convert::FromSpecImpl<usize> for Cell {
 impl From<usize> for Cell {
 //@use cell.fns "impl From<usize> for Cell"::from
 }
+impl vstd::std_specs::convert::FromSpecImpl<bool> for Cell {
+    open spec fn obeys_from_spec() -> bool { true }
+    open spec fn from_spec(x: bool) -> Cell { Cell::Flag(x) }
+}
+impl From<bool> for Cell {
+//@use cell.fns "impl From<bool> for Cell"::from
+}
 impl vstd::std_specs::convert::FromSpecImpl<isize> for Cell {
     open spec fn obeys_from_spec() -> bool { true }
     open spec fn from_spec(x: isize) -> Cell { Cell::Int(x as i128) }
@@ -114,6 +121,9 @@ impl State {
 //@use coll.fns ::core_word_insert_tag
 //@use coll.fns ::core_word_remove_tag
 //@use coll.fns ::core_word_get_tag
+//@use coll.fns ::core_word_equal
+//@use coll.fns ::core_word_assert_eq
+//@use coll.fns ::core_word_is_nil
 //@use coll.fns ::core_word_counter_i
 //@use coll.fns ::core_word_counter_j
 //@use coll.fns ::core_word_counter_k
